@@ -41,7 +41,8 @@ def numerical_rejection(e):
     sklearn's "ill-defined empirical covariance", the finite-ness / sign assertions of the trainers"""
     return isinstance(e, (np.linalg.LinAlgError, AssertionError, FloatingPointError)) or (
         isinstance(e, ValueError) and not isinstance(e, (TypeError,)) and any(
-            t in str(e) for t in ('ill-defined empirical covariance', 'infs or NaNs', 'Residuals are not finite', 'x0')))
+            t in str(e) for t in ('ill-defined empirical covariance', 'infs or NaNs', 'Residuals are not finite', 'x0',
+                                  'array(')))
 
 
 def wca_options(name, ndim):
@@ -155,6 +156,20 @@ def stream_log_pdfs(name, model, obs, emb):
     """(spatial, spectral) log-pdfs (F, K, T) of an integration model, unweighted"""
     F, T, _ = obs.shape
     spatial = model.cacg.log_pdf(_unit(obs)[..., None, :, :])
+    comp = model.gaussian if name == 'gcacgmm' else model.vmf
+    e = emb if name == 'gcacgmm' else _unit(emb)
+    spectral = comp.log_pdf(e.reshape(1, F * T, -1))
+    K = spectral.shape[0]
+    return spatial, spectral.reshape(K, F, T).transpose(1, 0, 2)
+
+
+def stream_log_pdfs_as_predict(name, model, obs, emb):
+    """the two stream log-pdfs evaluated on bit-identical inputs to `predict` (observation normalised once by
+    max(norm, tiny); the public cacg.log_pdf would normalise a second time, which the ill-conditioned quadratic form of a
+    class at the eigenvalue floor amplifies to ~1e-7) - used by the correspondence, where only the posterior / weight
+    bookkeeping is compared"""
+    F, T, _ = obs.shape
+    spatial = model.cacg._log_pdf(np.swapaxes(_unit(obs)[..., None, :, :], -1, -2))[0]
     comp = model.gaussian if name == 'gcacgmm' else model.vmf
     e = emb if name == 'gcacgmm' else _unit(emb)
     spectral = comp.log_pdf(e.reshape(1, F * T, -1))
@@ -519,6 +534,41 @@ class BinghamSolverTape:
                 return np.array(best)
             return f
         return self._patch(make)
+
+
+def inline_aligner_ties(name, obs, init, iterations, opts, mask=None):
+    """Does a score matrix seen by the inline permutation aligner during this fit contain two equal entries?
+    ('exact' / 'rounding' (within 1e-12 relative) / None).  The flat arg-max of the greedy assignment breaks such ties
+    by class index.  Posteriors clipped by affiliation_eps are bit-identical in many places, so exact ties are common."""
+    cfg = (opts or {}).get('inline_permutation_aligner')
+    if cfg is None or name not in ('cacgmm', 'cwmm', 'cbmm'):
+        return None
+    score = pa._ScoreMatrix.from_name(cfg.get('metric', 'cos'))
+    eps = float((opts or {}).get('affiliation_eps', 1e-10 if name == 'cacgmm' else 0.0) or 0.0)
+    o = dict(opts)
+    if mask is not None:
+        o['source_activity_mask'] = mask
+    worst = None
+    for it in range(1, int(iterations)):
+        try:
+            m = fit(name, obs, None, init, it, o)
+            if name == 'cacgmm':
+                aff = m._predict(normalize_cacg(obs), source_activity_mask=mask, affiliation_eps=eps)[0]
+            elif name == 'cbmm':
+                aff = m.predict(obs, affiliation_eps=eps)
+            else:
+                aff = m.predict(obs)
+        except Exception:  # noqa
+            return worst
+        mk = np.transpose(aff, (1, 0, 2))
+        for f in range(1, mk.shape[1]):
+            sc = np.sort(np.asarray(score(mk[:, f, :], mk[:, f - 1, :])).ravel())
+            gaps = np.diff(sc)
+            if gaps.size and np.any(gaps == 0):
+                return 'exact'
+            if gaps.size and np.any(gaps <= 1e-12 * max(1.0, float(np.max(np.abs(sc))))):
+                worst = 'rounding'
+    return worst
 
 
 def all_perms(K):
